@@ -236,9 +236,9 @@ func run(out *Out, r *Rand, tier string, replay []string) {
 		var fl []string
 		for _, l := range replay {
 			switch strings.Fields(l)[0] {
-			case "tx":
+			case "tx", "txd":
 				order, faults, ops := parseTxCase(l)
-				txOne(out, order, faults, ops)
+				txOne(out, order, faults, ops, strings.Fields(l)[0] == "txd")
 			case "fault":
 				fl = append(fl, l)
 			}
